@@ -72,6 +72,30 @@ Theorem C19_pause_overrun_le_1 : forall (cpu : Type) (pc : cpu -> Z) (step : cpu
 Proof. exact pause_overrun_le_1. Qed.
 Print Assumptions C19_pause_overrun_le_1.
 
+(* Breakpoints, current adapter.  `bp_ok` is a monitor over schedules: it fails at an M_execute of an instruction whose
+   address is covered by a breakpoint unless, since the CPU last changed, Stopped(that address) was published (the client
+   was told "stopped here" and resumed).  For every program without a one-instruction loop, every breakpoint history and
+   every interleaving in which the client steps only while stopped and replaces breakpoints only while not running,
+   no instruction at a breakpoint address executes without a stop there first. *)
+Theorem C19_bp_no_overrun : forall (cpu : Type) (pc : cpu -> Z) (step : cpu -> cpu) (fin : cpu -> bool)
+    (step_over step_out : cpu -> cpu) (c0 : cpu) (tr : list action),
+  no_self_loop cpu pc step fin ->
+  disciplined cpu pc step fin step_over step_out StateHeld tr (init c0) = true ->
+  bp_ok cpu pc step fin step_over step_out StateHeld tr (init c0) false = true.
+Proof. exact bp_no_overrun. Qed.
+Print Assumptions C19_bp_no_overrun.
+
+(* The guard is needed (class Known_breakpoint_self_loop): `last_checked_pc` skips the check when the same pc is reached
+   twice in a row, so a breakpoint on `hang: jmp hang` stops once; after `continue` the instruction executes again and
+   again without another stop. *)
+Theorem C19_bp_self_loop_refuted :
+  exists (cpu : Type) (pc : cpu -> Z) (step : cpu -> cpu) (fin : cpu -> bool) (so sout : cpu -> cpu) (c0 : cpu),
+    disciplined cpu pc step fin so sout StateHeld self_loop_schedule (init c0) = true /\
+    run cpu pc step fin so sout StateHeld self_loop_schedule (init c0) <> None /\
+    bp_ok cpu pc step fin so sout StateHeld self_loop_schedule (init c0) false = false.
+Proof. exact bp_self_loop_refuted. Qed.
+Print Assumptions C19_bp_self_loop_refuted.
+
 (* non-vacuity: a concrete CPU (pc counts instructions), pause after two instructions in the repaired protocol *)
 Example C19_example_stateheld :
   let tr := [S_req RConfigDone; S_start; M_read_state; M_check_bp; M_execute; M_read_state; M_check_bp; M_execute;
@@ -88,3 +112,17 @@ Example C19_example_race_disabled :
   run Z (fun c => c) Z.succ (fun _ => false) Z.succ Z.succ StateHeld
       [S_req RConfigDone; S_start; M_read_state; M_check_bp; S_req RPause; S_pause_read_pc] (init 10) = None.
 Proof. vm_compute. reflexivity. Qed.
+
+(* the breakpoint monitor is not vacuous: it accepts a loop with a breakpoint that stops in every iteration ... *)
+Example C19_example_bp_every_iteration :
+  let pcf := fun c : Z => c mod 3 in          (* a three-instruction loop at addresses 0,1,2 *)
+  let tr := [S_req (RSetBps [(1, 2)]); S_set_bps; S_req RConfigDone; S_start;
+             M_read_state; M_check_bp; M_execute; M_read_state; M_check_bp; S_event; S_req RContinue; S_resume;
+             M_read_state; M_check_bp; M_execute; M_read_state; M_check_bp; M_execute; M_read_state; M_check_bp; M_execute;
+             M_read_state; M_check_bp] in
+  match run_obs Z pcf Z.succ (fun _ => false) Z.succ Z.succ StateHeld tr (init 0) with
+  | Some (s, o) => rs s = Stopped 1 /\ cp s = 4 /\ o = [OResp (RSetBps [(1, 2)]); OResp RConfigDone; OEvent EvStoppedBreakpoint; OResp RContinue]
+  | None => False
+  end /\
+  bp_ok Z pcf Z.succ (fun _ => false) Z.succ Z.succ StateHeld tr (init 0) false = true.
+Proof. vm_compute. repeat split; reflexivity. Qed.
